@@ -102,6 +102,24 @@ class VMList:
         self.term = term
 
 
+class VTerms:
+    """mutable list of (coefficient, literal) pairs: abstract TSeq term"""
+
+    def __init__(self, term):
+        self.term = term
+
+
+class VCon:
+    """the heterogeneous list  [(c,l), ..., op, value]  (an OPB constraint)"""
+
+    def __init__(self, terms, op, value):
+        self.terms, self.op, self.value = terms, op, value      # TSeq term, str/z3 String, int/z3 Int
+
+    def as_z3(self):
+        op = z3.StringVal(self.op) if isinstance(self.op, str) else self.op
+        return specs.mkcon(self.terms, op, toz(self.value))
+
+
 class VArr:
     """mutable list of ints with symbolic length: (length, z3 array)"""
 
@@ -173,7 +191,9 @@ def as_bool(v):
     if isinstance(v, VTuple):
         return len(v.items) > 0
     if isinstance(v, VSeq):
-        return (specs.ilen(v.term) if v.sortname == 'ISeq' else specs.clen(v.term)) > 0
+        return {'ISeq': specs.ilen, 'CSeq': specs.clen, 'OSeq': specs.olen}[v.sortname](v.term) > 0
+    if isinstance(v, VCon):
+        return True
     if isinstance(v, VObj):
         return True
     raise Unsupported('truthiness of {!r}'.format(v))
@@ -335,6 +355,12 @@ class Engine:
             return VMList(self.fresh(base, specs.CSeq))
         if ty == 'asg':
             return self.fresh(base, specs.Asg)
+        if ty == 'molist':
+            return VMList(self.fresh(base, specs.OSeq))
+        if ty == 'terms':
+            return VTerms(self.fresh(base, specs.TSeq))
+        if ty == 'con':
+            return VCon(self.fresh(base + '_terms', specs.TSeq), self.fresh(base + '_op', z3.StringSort()), self.fresh(base + '_value'))
         if ty == 'intlist':
             L = self.fresh(base + '_len')
             self.assume(L >= 0)
@@ -477,6 +503,10 @@ class Engine:
             return VMList(v.term)
         if isinstance(v, VArr):
             return VArr(v.length, v.arr)
+        if isinstance(v, VTerms):
+            return VTerms(v.term)
+        if isinstance(v, VCon):
+            return VCon(v.terms, v.op, v.value)
         if isinstance(v, VTuple):
             return VTuple([self.snapshot(x) for x in v.items], v.kind)
         return v
@@ -489,6 +519,7 @@ class Engine:
         for r in c.get('requires', []):
             self.assume(toz(self.spec_eval(r, env)))
         old = {k: self.snapshot(v) for k, v in env.items()}
+        entry = dict(env)      # parameter names in postconditions denote the objects passed in (python may rebind the local)
         self.frames = [dict(contract=c, old=old, loopno=0, yields=[], rel=rel, qual=qual, node=node)]
         outcome = ('normal', None)
         try:
@@ -498,7 +529,7 @@ class Engine:
         except PyExc as e:
             outcome = ('raise', e)
         fr = self.frames[-1]
-        post_env = dict(env)
+        post_env = dict(entry)
         post_env['__old__'] = old
         if outcome[0] == 'normal':
             self.exits['normal'] += 1
@@ -647,6 +678,11 @@ class Engine:
                 i = self.norm_index(idx, base.length, t)
                 base.arr = z3.Store(base.arr, i, toz(v))
                 return
+            if isinstance(base, VTerms):
+                i = self.norm_index(idx, specs.tlen(base.term), t)
+                c, l = self.unpack(v, 2, t)
+                base.term = specs.tset(base.term, i, toz(c), toz(l))
+                return
             raise Unsupported('subscript store (line {})'.format(t.lineno))
         raise Unsupported('assignment target')
 
@@ -662,6 +698,12 @@ class Engine:
         i = toz(idx)
         ok = z3.And(i >= -toz(length), i < toz(length))
         self.oblige('hazard', 'index in bounds: {}'.format(ast.unparse(node)), ok, node.lineno)
+        if z3.is_int_value(i):
+            return i if i.as_long() >= 0 else z3.simplify(toz(length) + i)
+        if not self.feasible(i < 0):          # the path condition entails i >= 0: no wrap-around
+            return i
+        if not self.feasible(i >= 0):
+            return toz(length) + i
         return z3.If(i >= 0, i, toz(length) + i)
 
     # ------------------------------------------------------------------ loops
@@ -708,8 +750,13 @@ class Engine:
             self.pc.append(v.length >= 0)
             v.arr = self.fresh(name + '_arr', v.arr.sort())
             return v
+        if isinstance(v, VTerms):
+            v.term = self.fresh(name, specs.TSeq)
+            return v
         if v is UNBOUND:
             return self.fresh(name)
+        if isinstance(v, str):
+            return self.fresh(name, z3.StringSort())
         if isinstance(v, VTuple):
             return VTuple([self.havoc_value('{}_{}'.format(name, i), x) for i, x in enumerate(v.items)], v.kind)
         raise Unsupported('havoc of {!r} ({})'.format(v, name))
@@ -834,6 +881,10 @@ class Engine:
             niter = it.length
             arr0 = it.arr
             elem = lambda i: z3.Select(arr0, i)
+        elif isinstance(it, VTerms):
+            niter = specs.tlen(it.term)
+            t0 = it.term
+            elem = lambda i: VTuple([specs.tcoef(t0, i), specs.tlit(t0, i)], 'tuple')
         else:
             raise Unsupported('for over {!r} (line {})'.format(it, s.lineno))
         niter = z3.simplify(niter) if is_z3(niter) else niter
@@ -972,6 +1023,8 @@ class Engine:
         return self.binop(e.op, self.eval(e.left, env), self.eval(e.right, env), e)
 
     def binop(self, op, a, b, node):
+        if isinstance(a, VTerms) and isinstance(b, VTuple) and isinstance(op, ast.Add) and len(b.items) == 2:
+            return VCon(a.term, b.items[0], b.items[1])
         if isinstance(a, (VTuple,)) and isinstance(b, VTuple) and isinstance(op, ast.Add):
             return VTuple(a.items + b.items, a.kind)
         if isinstance(a, VTuple) and isinstance(op, ast.Mult) and isinstance(b, int):
@@ -1046,6 +1099,9 @@ class Engine:
         if isinstance(b, str):
             b = z3.StringVal(b)
         if isinstance(a, VSeq) and isinstance(b, VSeq) and isinstance(op, (ast.Eq, ast.NotEq)):
+            r = a.term == b.term
+            return r if isinstance(op, ast.Eq) else z3.Not(r)
+        if isinstance(a, VTerms) and isinstance(b, VTerms) and isinstance(op, (ast.Eq, ast.NotEq)):
             r = a.term == b.term
             return r if isinstance(op, ast.Eq) else z3.Not(r)
         if isinstance(a, VMList):
@@ -1138,6 +1194,15 @@ class Engine:
             if getattr(self, 'in_spec', False):
                 return get(toz(idx))
             return get(self.norm_index(idx, L, e))
+        if isinstance(base, VTerms):
+            i = toz(idx) if getattr(self, 'in_spec', False) else self.norm_index(idx, specs.tlen(base.term), e)
+            return VTuple([specs.tcoef(base.term, i), specs.tlit(base.term, i)], 'tuple')
+        if isinstance(base, VCon):
+            if idx == -1:
+                return base.value
+            if idx == -2:
+                return base.op
+            raise Unsupported('constraint index {}'.format(idx))
         if isinstance(base, VRange):
             raise Unsupported('subscript of range')
         if isinstance(base, VObj):
@@ -1150,6 +1215,11 @@ class Engine:
         st = self.eval(sl.step, env) if sl.step else None
         if isinstance(base, VTuple) and all(x is None or isinstance(x, int) for x in (lo, hi, st)):
             return VTuple(base.items[slice(lo, hi, st)], base.kind)
+        if isinstance(base, VCon) and lo is None and hi == -2 and st is None:
+            return VTerms(base.terms)            # slice copy: a fresh list with the same content
+        if isinstance(base, (VSeq, VMList)) and base.term.sort() == specs.OSeq and getattr(self, 'in_spec', False):
+            if lo is None and st is None:
+                return VSeq(specs.otake(base.term, toz(hi)))
         if isinstance(base, (VSeq, VMList)) and base.term.sort() == specs.CSeq and getattr(self, 'in_spec', False):
             if lo is None and st is None:
                 return VSeq(specs.ctake(base.term, toz(hi)))
@@ -1184,9 +1254,15 @@ class Engine:
             if not (is_z3(body) and z3.is_int(body)) and not isinstance(body, int):
                 raise Unsupported('comprehension element is not an int (line {})'.format(e.lineno))
             return VArr(z3.simplify(n), z3.Lambda([t], toz(body)))
+        if isinstance(it, VTerms) and isinstance(g.target, ast.Tuple) and len(g.target.elts) == 2:
+            c, l = [x.id for x in g.target.elts]
+            if ast.unparse(e.elt) == '(-{}, {})'.format(c, l):
+                return VTerms(specs.tnegc(it.term))
         if isinstance(it, VSeq) and it.sortname == 'ISeq' and isinstance(g.target, ast.Name):
             # recognised maps over an abstract literal list
             src = ast.unparse(e.elt)
+            if src == '(1, {})'.format(g.target.id):
+                return VTerms(specs.tunit(it.term))
             if src == '-' + g.target.id:
                 return VSeq(specs.ineg(it.term))
             if src == g.target.id:
@@ -1393,7 +1469,7 @@ class Engine:
                 if not isinstance(v, (VSeq, VMList)):
                     return False
                 cur.term = v.term
-            elif isinstance(v, (VSeq, VMList, VTuple, VObj, VArr)):
+            elif isinstance(v, (VSeq, VMList, VTuple, VObj, VArr, VTerms, VCon)):
                 return False
             else:
                 o.fields[lhs.attr] = toz(v)
@@ -1456,8 +1532,12 @@ POW2 = specs.pow2
 
 # spec vocabulary --------------------------------------------------------------------
 def _term(v):
-    if isinstance(v, (VSeq, VMList)):
+    if isinstance(v, (VSeq, VMList, VTerms)):
         return v.term
+    if isinstance(v, VCon):
+        return v.as_z3()
+    if isinstance(v, str):
+        return z3.StringVal(v)
     if isinstance(v, VTuple):
         # concrete list of ints -> isnoc chain
         t = specs.inil
@@ -1505,8 +1585,10 @@ sf_forall_int.raw = True
 def _wrap(fn, ret=None):
     def f(eng, node, *args):
         r = fn(*[_term(a) for a in args])
-        if is_z3(r) and r.sort() in (specs.ISeq, specs.CSeq):
+        if is_z3(r) and r.sort() in (specs.ISeq, specs.CSeq, specs.OSeq):
             return VSeq(r)
+        if is_z3(r) and r.sort() == specs.TSeq:
+            return VTerms(r)
         return r
     return f
 
@@ -1519,6 +1601,13 @@ SPEC_FUNCS = {
     'ctake': _wrap(specs.ctake), 'haszero': _wrap(specs.haszero), 'maxabs': _wrap(specs.maxabs),
     'cmaxabs': _wrap(specs.cmaxabs), 'chaszero': _wrap(specs.chaszero), 'cnil': VSeq(specs.cnil), 'pow2': _wrap(POW2),
     'iget': _wrap(specs.iget), 'cget': _wrap(specs.cget),
+    'wsum': _wrap(specs.wsum), 'tlen': _wrap(specs.tlen), 'tcoef': _wrap(specs.tcoef), 'tlit': _wrap(specs.tlit),
+    'thaszero': _wrap(specs.thaszero), 'tmaxabs': _wrap(specs.tmaxabs), 'tnonneg': _wrap(specs.tnonneg),
+    'tunit': _wrap(specs.tunit), 'holds': _wrap(specs.holds), 'osat': _wrap(specs.osat), 'olen': _wrap(specs.olen),
+    'osnoc': _wrap(specs.osnoc), 'otake': _wrap(specs.otake), 'omaxabs': _wrap(specs.omaxabs),
+    'ohaszero': _wrap(specs.ohaszero), 'onormal': _wrap(specs.onormal),
+    'mkcon': _wrap(specs.mkcon), 'con_terms': _wrap(specs.Con.terms), 'con_op': _wrap(specs.Con.op), 'con_value': _wrap(specs.Con.value),
+    'cmp_op': lambda eng, node, op, a, b: specs.cmp_op(_term(op), toz(a), toz(b)),
     'zmax': lambda eng, node, a, b: zmax(toz(a), toz(b)),
     'zmin': lambda eng, node, a, b: zmin(toz(a), toz(b)),
     'floordiv': lambda eng, node, a, b: py_floordiv(a, b),
@@ -1544,9 +1633,13 @@ def b_len(eng, node, v):
     if isinstance(v, VTuple):
         return len(v.items)
     if isinstance(v, (VSeq, VMList)):
-        return specs.ilen(v.term) if v.term.sort() == specs.ISeq else specs.clen(v.term)
+        return {'ISeq': specs.ilen, 'CSeq': specs.clen, 'OSeq': specs.olen}[v.term.sort().name()](v.term)
     if isinstance(v, VArr):
         return v.length
+    if isinstance(v, VTerms):
+        return specs.tlen(v.term)
+    if isinstance(v, VCon):
+        return specs.tlen(v.terms) + 2
     if isinstance(v, VRange):
         if v.step == 1:
             return zmax(toz(v.hi) - toz(v.lo), z3.IntVal(0))
@@ -1682,6 +1775,9 @@ def lm_append(eng, node, o, x):
     if isinstance(o, VMList):
         if o.term.sort() == specs.CSeq:
             o.term = specs.csnoc(o.term, _term(x))
+            return None
+        if o.term.sort() == specs.OSeq and isinstance(x, VCon):
+            o.term = specs.osnoc(o.term, x.as_z3())
             return None
     if isinstance(o, VArr):
         o.arr = z3.Store(o.arr, o.length, toz(x))
